@@ -2,6 +2,7 @@
 C29 — size-limited serializers fail exactly at the limit with out-of-memory.
 -/
 import ClvmModel.Serde.Classic
+import ClvmProofs.Lemmas.ClassicSer
 
 namespace Clvm.Props.C29
 open Clvm Clvm.Serde.Classic
@@ -21,5 +22,59 @@ theorem limited_write (out buf : Bytes) (l : Nat) (h : buf ≠ []) :
 
 /-- a crossed limit is converted to `OutOfMemory` (not to `SerializationError`) -/
 theorem crossed_limit_is_oom : errOfIo .outOfMemory = .OutOfMemory := rfl
+
+/-- the serialization loop over an unlimited writer (`Vec<u8>`) appends exactly the recursive
+specification `serSpec` -/
+theorem unlimited_ser (t : Tree) (ht : t.atomsBelow (2 ^ 34)) (out : Bytes) :
+    nodeToStream [t] { out := out, limit := none } = .ok { out := out ++ serSpec t, limit := none } := by
+  rw [nodeToStream_spec [t] _ (by simpa using ht)]
+  simp [Writer.fits, Writer.adv, serList]
+
+/-- C29 for `node_to_bytes_limit`: for every tree (atoms below 2^34 bytes, the format's maximum)
+and every limit `L`, the result is the unlimited serialization when it fits, and otherwise the
+error is `OutOfMemory` — wherever the limit is crossed (cons marker, length prefix or atom body). -/
+theorem limited_ser (t : Tree) (ht : t.atomsBelow (2 ^ 34)) (L : Nat) :
+    nodeToBytesLimit t L =
+      if (serSpec t).length ≤ L then .ok (serSpec t) else .error .OutOfMemory := by
+  unfold nodeToBytesLimit
+  rw [nodeToStream_spec [t] _ (by simpa using ht)]
+  by_cases h : (serSpec t).length ≤ L
+  · simp [Writer.fits, Writer.adv, serList, h]
+  · simp [Writer.fits, serList, h]
+
+/-- `node_to_bytes` is the limited serializer at the default limit declared in `ser.rs` -/
+theorem node_to_bytes_eq (t : Tree) (ht : t.atomsBelow (2 ^ 34)) :
+    nodeToBytes t =
+      if (serSpec t).length ≤ Gen.nodeToBytesLimit then .ok (serSpec t) else .error .OutOfMemory :=
+  limited_ser t ht _
+
+/-- the failure is monotone: a limit that suffices keeps sufficing when raised, and the result
+does not depend on the limit -/
+theorem limited_ser_mono (t : Tree) (ht : t.atomsBelow (2 ^ 34)) (L L' : Nat) (h : L ≤ L') (b : Bytes)
+    (hb : nodeToBytesLimit t L = .ok b) : nodeToBytesLimit t L' = .ok b := by
+  rw [limited_ser t ht] at hb ⊢
+  split at hb
+  · rename_i h1
+    have : (serSpec t).length ≤ L' := by omega
+    simpa [this] using hb
+  · cases hb
+
+/-- an atom of 2^34 bytes or more is refused with `SerializationError` whatever the limit
+(this is why the size hypothesis of `limited_ser` is needed) -/
+theorem too_long_atom (b : Bytes) (hb : 2 ^ 34 ≤ b.length) (w : Writer) :
+    writeAtom w b = .error .SerializationError := by
+  simp only [writeAtom, writePrefix_too_big w _ _ hb]
+
+/-- non-vacuity: a concrete tree at three limits (crossed at the cons marker, inside the atom
+prefix, and not crossed) -/
+example : nodeToBytesLimit (.pair (.atom [0x80, 1]) (.atom [])) 0 = .error .OutOfMemory := by
+  rw [limited_ser _ (by decide)]; rfl
+example : nodeToBytesLimit (.pair (.atom [0x80, 1]) (.atom [])) 1 = .error .OutOfMemory := by
+  rw [limited_ser _ (by decide)]; rfl
+example : nodeToBytesLimit (.pair (.atom [0x80, 1]) (.atom [])) 4 = .error .OutOfMemory := by
+  rw [limited_ser _ (by decide)]; rfl
+example : nodeToBytesLimit (.pair (.atom [0x80, 1]) (.atom [])) 5 = .ok [0xff, 0x82, 0x80, 1, 0x80] := by
+  rw [limited_ser _ (by decide)]; rfl
+example : (Tree.pair (.atom [0x80, 1]) (.atom [])).atomsBelow (2 ^ 34) := by decide
 
 end Clvm.Props.C29
